@@ -48,7 +48,7 @@ def check_dpa(traces, data, precision, splits):
 
 def rand_case(rnd, dist):
     n = rnd.choice([2, 3, 5, 17, 40]); S = rnd.choice([1, 2, 4]); wshape = rnd.choice([(1,), (3,), (2, 2), (2, 1, 2)])
-    tdt = rnd.choice(['uint8', 'int16', 'float32', 'float64', 'int8']); ddt = rnd.choice(['uint8', 'uint8', 'int8', 'uint16', 'int32', 'float64'])
+    tdt = rnd.choice(['uint8', 'int16', 'float32', 'float64', 'int8', 'float16']); ddt = rnd.choice(['uint8', 'uint8', 'int8', 'uint16', 'int32', 'float64'])
     info = (lambda d: (np.iinfo(d).min, np.iinfo(d).max) if np.dtype(d).kind in 'iu' else (-50, 50))
     lo, hi = info(tdt); traces = np.array([[rnd.randint(max(lo, -300), min(hi, 300)) for _ in range(S)] for _ in range(n)]).astype(tdt)
     W = int(np.prod(wshape))
